@@ -15,6 +15,10 @@ def check(ctx):
     rep.floor("error register obligations", ner, 2)
     nvd = ffi.check_verb_delegation(ctx, rep)
     rep.floor("exported functions that mutate a collection", nvd, 5)
+    ncd = ffi.check_codec_delegation(ctx, rep)
+    rep.floor("codec / filter entry points of the C API", ncd, 5)
+    nlg = ffi.check_length_getters(ctx, rep)
+    rep.floor("length getters of the C API", nlg, 7)
     nfl = ffi.check_named_flags(ctx, rep)
     rep.floor("utc-flag selected accessors", nfl, 2)
     rep.floor("kind-specific C functions (is_/get_/make_)", nk, 60)
